@@ -147,7 +147,7 @@ LAST_LEANCHECKER = None
 EXTRA_MODULES = {
     "C01": ["Pdt.Props.C01Frag", "Pdt.Props.C01Ord", "Pdt.Props.C01Agg", "Pdt.Props.C01Group", "Pdt.Props.C01Gen", "Pdt.Props.C01Window", "Pdt.Props.Lemmas.InlineUnits", "Pdt.Props.Lemmas.Inline", "Pdt.Props.Lemmas.Rows", "Pdt.Props.Lemmas.Pointwise"],
     "C11": ["Pdt.Props.C11Frag"],
-    "C08": ["Pdt.Props.C08Simple"],
+    "C08": ["Pdt.Props.C08Simple", "Pdt.Props.C08Sql"],
     "C09": ["Pdt.Props.C09Scope"],
     "C05": ["Pdt.Props.Lemmas.Sort", "Pdt.Props.Lemmas.Partition", "Pdt.Props.Lemmas.KeyOrder", "Pdt.Props.C01Window"],
     "C04": ["Pdt.Props.Lemmas.Partition", "Pdt.Props.C04Filter"],
